@@ -208,7 +208,7 @@ def deep_snapshot(doc):
 
 
 READ_OPS = ['dumps', 'dumps_opts', 'dumps_range', 'dumps_bad', 'tokens', 'unique', 'freq', 'meta', 'spine_types', 'mono', 'iter', 'count', 'graph',
-            'dumps_agnostic', 'encodings', 'header_nodes', 'spine_ids', 'iter_abandoned', 'iter_overlapping', 'next']
+            'dumps_agnostic', 'encodings', 'header_nodes', 'spine_ids', 'iter_abandoned', 'iter_overlapping', 'next', 'dumps_any', 'dumps_any']
 
 
 def run_op(doc, op, rng):
@@ -222,6 +222,25 @@ def run_op(doc, op, rng):
             return kp.dumps(doc, from_measure=1, to_measure=1, spine_types=['**kern'])
         if op == 'dumps_bad':
             return kp.dumps(doc, from_measure=-1)
+        if op == 'dumps_any':
+            # any combination of the export options: a measure range (possibly out of range), a subset of the spine ids, spine types,
+            # a category selection, an encoding
+            M = len(doc.measure_start_tree_stages)
+            kw = {}
+            if rng.random() < 0.7:
+                kw['from_measure'] = rng.randint(0, M + 1)
+            if rng.random() < 0.7:
+                kw['to_measure'] = rng.randint(0, M + 1)
+            if rng.random() < 0.6:
+                ids = doc.get_spine_ids()
+                kw['spine_ids'] = [i for i in ids if rng.random() < 0.5]
+            if rng.random() < 0.4:
+                kw['spine_types'] = rng.sample(['**kern', '**text', '**dynam', '**harm'], rng.randint(1, 3))
+            if rng.random() < 0.4:
+                kw['include'] = set(cats)
+            if rng.random() < 0.4:
+                kw['encoding'] = rng.choice(list(kp.Encoding)[:6])
+            return kp.dumps(doc, **kw)
         if op == 'dumps_agnostic':
             return kp.dumps(doc, encoding=kp.Encoding.agnosticKern)
         if op == 'tokens':
